@@ -138,6 +138,19 @@ theorem step_submitted_len {s : Sys} {act : Act} (hA : AInv accts groups (abs s)
         exact congrArg List.length this
   | restart a => rfl
 
+theorem run_submitted_len (acts : List Act) : ∀ s : Sys, AInv accts groups (abs s) → AllowedRun s acts = true →
+    (run s acts).submitted.length = s.submitted.length + sendCountAux acts := by
+  induction acts with
+  | nil => intro s _ _; rfl
+  | cons act acts ih =>
+    intro s h ha
+    simp only [AllowedRun, Bool.and_eq_true] at ha
+    have hlen := step_submitted_len h ha.1
+    have := ih _ (step_inv h ha.1) ha.2
+    show (run (step s act) acts).submitted.length = _
+    rw [this, hlen]
+    cases act <;> simp only [sendCountAux] <;> omega
+
 theorem TInv_run (hw : WFConfig accts groups) (hnd : ∀ g ∈ groups, g.2.Nodup) (acts : List Act) : ∀ s : Sys,
     TInv ex accts groups s → AllowedRun s acts = true → NoFault acts = true → s.submitted.length + sendCountAux acts ≤ 100 →
     TInv ex accts groups (run s acts) := by
